@@ -209,4 +209,81 @@ def parsePtrS (legacy : Bool) (s : GSchema) (σ : GStore) (p : Loc) : GStore × 
       else ((galloc (parseS s σ v).1 [(0, w)]).1, some (.ref (galloc (parseS s σ v).1 [(0, w)]).2))
   | _ => (σ, none)
 
+/-! ### the pointer clause over pointer-typed, optional and nilable schemas (round 4c)
+
+    "…a pointer passed to a pointer-typed, optional or nilable schema comes back as the same pointer."  How a schema was
+    made decides the Go type of its answer: `types.X(…)` answers `T`; `.Optional()` / `.Nilable()` set
+    `internals.Optional` / `internals.Nilable` and answer `*T`; `types.XPtr(…)` has the constraint type `*T`.  That is a
+    variant of the schema, not a node of the tree (`PKind`).
+
+    parsePtrP   Parse(&v) / StrictParse(&v), the pointer `p` a one-slot cell holding the pointee:
+                * a literal takes no pointer (`types/literal.go`: the input is matched as it is — a pointer is no member):
+                  refused. A union tries every member with the POINTER; what a member does with a `*any` is Go conversion
+                  detail outside this model: union roots are refused here too, so that no theorem speaks about them (every
+                  theorem has "accepted" as a hypothesis), and the class `optr` does not generate them;
+                * `resolveDefault` looks at the INPUT: a non-nil pointer is not nil, whatever it refers to — the pointee goes
+                  to the type's own validator (`underDflt`);
+                * `types.Any()` (value-typed): the input — the pointer itself — is the result;
+                * any other value-typed schema: the pointee is validated and the answer is the VALUE (`convertToValue`);
+                * pointer-typed / optional / nilable: `validatePointer` (`parsePtrS false`, above).
+    specKeeps   the documented meaning, written without the model: every type of the language answers the value it was
+                given, except an object in strip mode given unknown keys (they are dropped)
+    wantSame    the clause in its own words: pointer-typed, optional or nilable schema, documented answer looks like what
+                the pointer refers to → the same pointer; documented answer differs → the same pointer cannot carry it beside
+                an unchanged input (`ptr_clauses_exclusive`), a pointer of its own is demanded; value-typed → nothing asked -/
+
+inductive PKind where
+  | value | optional | nilable | pointer
+
+def PKind.ptrTyped : PKind → Bool
+  | .value => false
+  | _ => true
+
+structure PSchema where
+  kind : PKind
+  s : GSchema
+
+def underDflt : GSchema → GSchema
+  | .dflt _ t => underDflt t
+  | s => s
+
+def takesPtr : GSchema → Bool
+  | .lit _ _ => false
+  | .union _ _ => false
+  | .dflt _ t => takesPtr t
+  | _ => true
+
+def isAny : GSchema → Bool
+  | .any => true
+  | _ => false
+
+def parsePtrP (ps : PSchema) (σ : GStore) (p : Loc) : GStore × Option GVal :=
+  if takesPtr ps.s then
+    if ps.kind.ptrTyped then parsePtrS false (underDflt ps.s) σ p
+    else if isAny (underDflt ps.s) then (σ, some (.ref p))
+    else
+      match readG σ.heap p with
+      | [(0, v)] => parseS (underDflt ps.s) σ v
+      | _ => (σ, none)
+  else (σ, none)
+
+def specKeeps : GSchema → GHeap → GVal → Bool
+  | .obj .strip fields _, h, .ref l => (readG h l).all (fun p => fields.contains p.1)
+  | .dflt _ t, h, v => specKeeps t h v
+  | _, _, _ => true
+
+def wantSame (ps : PSchema) (σ : GStore) (p : Loc) : Option Bool :=
+  if ps.kind.ptrTyped then
+    match readG σ.heap p with
+    | [(0, v)] => some (specKeeps ps.s σ.heap v)
+    | _ => none
+  else none
+
+/-- the classes `ptr` / `ptr(gen)` / `ptr(ctor)` run schema types outside this language: the harness reports what the answer
+    LOOKS like beside the pointee (`k` = a pointer of the caller's type whose pointee looks like the pointee before the call,
+    `b` = it looks different, `x` = value-typed schema or an answer of another type) and the clause is evaluated on that:
+    `some true` = the same pointer is demanded, `some false` = a pointer of its own, `none` = nothing asked -/
+def wantSameRun (cls : String) : Option Bool :=
+  if cls == "k" then some true else if cls == "b" then some false else none
+
 end Gozod.Graph
